@@ -392,6 +392,37 @@ def scene_tie_split(draw):
                           'MIN_SEP_LIMS': [10000]}}
 
 
+@st.composite
+def scene_heavy_tail(draw):
+    """ One dense deck whose heights have a sharp core and heavy tails (inverse-CDF of a Cauchy / t-like law
+    applied to uniform integer draws), quantised; optionally with a compact deck right below. Such shapes
+    make a mixture component come out empty now and then (issue #119 path). """
+    import math as _m
+    n = draw(st.integers(60, 150))
+    scale = draw(st.sampled_from([10, 25, 60, 100]))
+    res = draw(st.sampled_from([10, 10, 1, 50]))
+    power = draw(st.sampled_from([1.0, 0.6]))
+    base = draw(st.sampled_from([1500, 3000, 8000]))
+    us = ints(draw, 1, 9999, n)
+    hs = []
+    for u in us:
+        t = _m.tan(_m.pi * (u / 10000 - 0.5))
+        t = _m.copysign(abs(t) ** power, t)
+        h = base + scale * max(-80.0, min(80.0, t))
+        hs.append(float(max(0, round(h / res) * res)))
+    meas = [('a', -1200.0 + 1200.0 * (i + 0.5) / n) for i in range(n)]
+    hits = [[h] for h in hs]
+    prms_hint = None
+    if draw(st.booleans()):
+        for i in range(0, n, 2):
+            hits[i].append(float(base - 500 + (us[i] % 7) * 10))
+        prms_hint = {'SLICING_PRMS': {'distance_threshold': 1.0}}
+    out = {'cls': 'heavy_tail', 'rows': draw(order_rows(rows_from_hits(meas, hits), ('asc', 'asc', 'shuffled')))}
+    if prms_hint:
+        out['prms_hint'] = prms_hint
+    return out
+
+
 DEGENERATE_KINDS = ['single_hit', 'all_nan', 'all_vv', 'two_rows', 'identical', 'two_heights',
                     'one_stamp_3hits', 'identical30', 'one_row_nan', 'two_heights_30', 'zero_height']
 
@@ -487,6 +518,7 @@ SCENES = {
     'limit_crossing': scene_limit_crossing,
     'double_split': scene_double_split,
     'tie_split': scene_tie_split,
+    'heavy_tail': scene_heavy_tail,
 }
 
 
@@ -721,7 +753,10 @@ def global_height_mode(draw):
         scales = [draw(st.sampled_from([100, 500, 1000, 5000])) for _ in range(k + 1)]
         return {'SLICING_PRMS': {'height_scale_mode': 'step-scale',
                                  'height_scale_kwargs': {'steps': steps, 'scales': scales}}}
-    return {'SLICING_PRMS': {'height_scale_mode': 'minmax-scale', 'height_scale_kwargs': {}}}
+    # (min_range must stay positive: with no minimum range a constant-height chunk has a zero span, which is
+    # outside the scaling's own domain - see C19)
+    return {'SLICING_PRMS': {'height_scale_mode': 'minmax-scale',
+                             'height_scale_kwargs': {'min_range': draw(st.sampled_from([500, 2000]))}}}
 
 
 def merge_dict(a, b):
